@@ -601,6 +601,118 @@ example : sliceBits [0x61, 0x0C, 0x2A] 6 1 = [true, false, false, false, true, t
 example : memFrameBytes [1, 2, 3, 4, 5, 6, 7] 1 2 1 8 3 "MONOCHROME2" 2 false = .ok [3, 4] :=
   memory_bytes_is_slice [1, 2, 3, 4, 5, 6, 7] 1 2 1 8 "MONOCHROME2" (by decide) 3 1 (by decide)
 
+/-- >= 8 bits allocated, lazily: offset table entry `i * L`, read length `L` - the slice, for ARBITRARY pixel data, as long as the
+    file holds at least one byte of the frame (an empty read is an OSError) -/
+theorem lazy_bytes_is_slice (pd : List Nat) (rows cols samples bits : Nat) (pi : String) (hb : bits ≠ 1) (n i : Nat) (hi : i < n)
+    (hne : i * frameBytes rows cols samples bits pi < pd.length) (hpos : 0 < frameBytes rows cols samples bits pi) :
+    lazyFrameBytes pd rows cols samples bits n pi ((i : Int) + 1) false
+      = .ok (sliceBytes pd (frameBytes rows cols samples bits pi) i) := by
+  have h1 : stdFrameIndex ((i : Int) + 1) false n = .ok (i : Int) := by
+    rw [stdFrameIndex_ok_iff]; simp; omega
+  have h2 : lazyIndexGuard (i : Int) n = .ok (i : Int) := by
+    rw [lazyIndexGuard_ok_iff]; omega
+  unfold lazyFrameBytes Skel.frameBytes Skel.index
+  simp only [singleSkel, singleStdArgs, singleRawArgs, singleDecodeIndex, bind, Except.bind]
+  rw [h1]
+  simp only []
+  unfold lazyRaw
+  simp only [bind, Except.bind, h2]
+  have hb' : (((bits : Int)) == 1) = false := by
+    have : (bits : Int) ≠ 1 := by exact_mod_cast hb
+    simpa using this
+  have hbne : ¬ ((bits : Int) = 1) := by exact_mod_cast hb
+  have hbpf : lazyBytesPerFrame ((rows : Int) * cols * samples) bits pi rows cols
+      = .ok ((frameBytes rows cols samples bits pi : Nat) : Int) := by
+    unfold lazyBytesPerFrame frameBytes
+    simp only [hb', Bool.false_eq_true, ↓reduceIte, Bool.not_false, fdiv_pos _ 8 (by omega)]
+    by_cases hp : pi = "YBR_FULL_422"
+    · simp [hp]; congr 1; rw [Int.mul_comm]
+    · have : (pi == "YBR_FULL_422") = false := by simpa using hp
+      simp [hp, this]; congr 1; rw [Int.mul_comm]
+  rw [hbpf]
+  simp only [hbne, ↓reduceIte]
+  unfold lazyOffsetByte lazyReadLength
+  simp only [hb', Bool.false_eq_true, ↓reduceIte]
+  generalize hL : frameBytes rows cols samples bits pi = L at *
+  have e2 : (i : Int) * (L : Int) = ((i * L : Nat) : Int) := by push_cast; rfl
+  have e3 : ((i * L : Nat) : Int) + (L : Int) = (((i + 1) * L : Nat) : Int) := by push_cast; ring
+  rw [e2, e3, slice_nat]
+  have hlen : (pySlice pd (i * L) ((i + 1) * L)).length ≠ 0 := by
+    unfold pySlice
+    simp only [List.length_take, List.length_drop]
+    have : (i + 1) * L - i * L = L := by rw [Nat.succ_mul]; omega
+    omega
+  simp [hlen, sliceBytes]
+
+/-- the single fetch for >= 8 bits is the fetch pair with the decode index dropped -/
+theorem stored_bytes_is_fetch (pd : List Nat) (rows cols samples bits n : Int) (pi : String) (k : Int) (asIndex : Bool) :
+    memFrameBytes pd rows cols samples bits n pi k asIndex
+      = (Skel.fetch singleSkel false (memRaw pd rows cols samples bits pi) (lazyRaw pd rows cols samples bits n pi) n k asIndex).map Prod.fst ∧
+    lazyFrameBytes pd rows cols samples bits n pi k asIndex
+      = (Skel.fetch singleSkel true (memRaw pd rows cols samples bits pi) (lazyRaw pd rows cols samples bits n pi) n k asIndex).map Prod.fst := by
+  unfold memFrameBytes lazyFrameBytes Skel.frameBytes Skel.fetch
+  simp only [rawLazyArg, bind, Except.bind, pure, Except.pure, Bool.false_eq_true, ↓reduceIte, Except.map]
+  constructor
+  · cases singleSkel.index n k asIndex with
+    | error e => rfl
+    | ok idx =>
+      simp only []
+      cases singleSkel.rawArgs k asIndex idx with
+      | error e => rfl
+      | ok p =>
+        simp only []
+        cases stdFrameIndex p.1 p.2 n with
+        | error e => rfl
+        | ok r =>
+          simp only []
+          cases memRaw pd rows cols samples bits pi r with
+          | error e => rfl
+          | ok raw => simp only [singleSkel, singleDecodeIndex]
+  · cases singleSkel.index n k asIndex with
+    | error e => rfl
+    | ok idx =>
+      simp only []
+      cases singleSkel.rawArgs k asIndex idx with
+      | error e => rfl
+      | ok p =>
+        simp only []
+        cases stdFrameIndex p.1 p.2 n with
+        | error e => rfl
+        | ok r =>
+          simp only []
+          cases lazyRaw pd rows cols samples bits n pi r with
+          | error e => rfl
+          | ok raw => simp only [singleSkel, singleDecodeIndex]
+
+/-- **Every way of fetching the bytes of a stored frame with >= 8 bits allocated returns slice `i`** (the analogue of
+`every_path_is_slice`; turning bytes into numbers is the decoder's, which every path feeds alike - pinned tables): single fetch in
+memory and lazily, by number and by index, and the raw bytes fetched by `get_frames` and by the `get_volume` /
+`get_total_pixel_matrix` loop, in memory and lazily. -/
+theorem every_path_is_slice_bytes (pd : List Nat) (rows cols samples bits : Nat) (pi : String) (hb : bits ≠ 1) (n i : Nat) (hi : i < n)
+    (hne : i * frameBytes rows cols samples bits pi < pd.length) (hpos : 0 < frameBytes rows cols samples bits pi) :
+    let want : Except ErrKind (List Nat) := .ok (sliceBytes pd (frameBytes rows cols samples bits pi) i)
+    let m := memRaw pd rows cols samples bits pi
+    let l := lazyRaw pd rows cols samples bits n pi
+    memFrameBytes pd rows cols samples bits n pi ((i : Int) + 1) false = want ∧
+    lazyFrameBytes pd rows cols samples bits n pi ((i : Int) + 1) false = want ∧
+    (getFramesFetch false m l n ((i : Int) + 1) false).map Prod.fst = want ∧
+    (getFramesFetch true m l n ((i : Int) + 1) false).map Prod.fst = want ∧
+    (pixelsSkel.fetch false m l n (i : Int)).map Prod.fst = want ∧
+    (pixelsSkel.fetch true m l n (i : Int)).map Prod.fst = want := by
+  have hm := memory_bytes_is_slice pd rows cols samples bits pi hb n i hi
+  have hl := lazy_bytes_is_slice pd rows cols samples bits pi hb n i hi hne hpos
+  have hd := stored_bytes_is_fetch pd rows cols samples bits n pi ((i : Int) + 1) false
+  simp only []
+  refine ⟨hm, hl, ?_, ?_, ?_, ?_⟩
+  · rw [get_frames_fetch_eq_stored, ← hd.1]; exact hm
+  · rw [get_frames_fetch_eq_stored, ← hd.2]; exact hl
+  · rw [pixels_by_frame_fetch_eq_stored _ _ _ _ _ (by omega) (by omega), ← hd.1]; exact hm
+  · rw [pixels_by_frame_fetch_eq_stored _ _ _ _ _ (by omega) (by omega), ← hd.2]; exact hl
+
+example : lazyFrameBytes [1, 2, 3, 4, 5, 6, 7] 1 2 1 8 3 "MONOCHROME2" 2 false = .ok [3, 4] :=
+  lazy_bytes_is_slice [1, 2, 3, 4, 5, 6, 7] 1 2 1 8 "MONOCHROME2" (by decide) 3 1 (by decide) (by decide) (by decide)
+
+
 /-! ## Histories on one image object (cache empty / filled / stale after the PixelData value was replaced) -/
 
 /-- **After ANY history the next fetch answers from the CURRENT pixel data.**  `one` = the un-cached fetch, `all` = the
